@@ -184,6 +184,9 @@ def checkRpdac (strsHex queriesHex prefHex t rules seqs loc abs pre : String) : 
     | _, _ => some (0, 0)
   if modPre != implPre.map some then "V model-locatePrefix-differs-from-code" else
   if modPre != specPre then "V model-locatePrefix-differs-from-spec" else
+  -- the string iterator of `extractPrefix` on the real grammar
+  let specXp := P.map fun p => some (((Spec.prefixIds S p).filterMap (Spec.extract S)).map nat)
+  if (P.map fun p => RPDAC.extractPrefix d (nat p)) != specXp then "V model-extractPrefix-differs-from-spec" else
   "V ok"
 
 /-- The HASHRPDAC object exported by the real code against the exact table model (size, occupancy) and
